@@ -162,8 +162,10 @@ def _agree(c, fl, ex, market, strategy, tag):
         o = cands[0]
         # (a replacement order carries its own local reference: the exchange keeps the replaced bet's reference for the new
         # bet, flumine resolves it through the bet id - so references are not compared)
-        c.ob("%s.bet-%s.size-matched" % (tag, bid[-1]), o.size_matched == b["matched"], local=o.size_matched, exchange=b["matched"], replacement_bet=(bid != min(ex.bets)))
-        c.ob("%s.bet-%s.size-remaining" % (tag, bid[-1]), o.size_remaining == ex.remaining(b), local=o.size_remaining, exchange=ex.remaining(b), replacement_bet=(bid != min(ex.bets)))
+        c.ob("%s.bet-%s.size-matched" % (tag, bid[-1]), o.size_matched == b["matched"], local=o.size_matched, exchange=b["matched"], replacement_bet=(bid != min(ex.bets)),
+             bet_untouched=(b["matched"] == 0 and b["cancelled"] == 0 and b["lapsed"] == 0))
+        c.ob("%s.bet-%s.size-remaining" % (tag, bid[-1]), o.size_remaining == ex.remaining(b), local=o.size_remaining, exchange=ex.remaining(b), replacement_bet=(bid != min(ex.bets)),
+             bet_untouched=(b["matched"] == 0 and b["cancelled"] == 0 and b["lapsed"] == 0))
         done = b["status"] == "EXECUTION_COMPLETE"
         # (known finding F18 is specific to the coincidence 'amount cancelled == what then remains at the exchange')
         c.ob("%s.bet-%s.completeness" % (tag, bid[-1]), o.complete == done, local=o.status.name, exchange=b["status"],
